@@ -1,26 +1,23 @@
 /-
-  Driver.Fast — array-backed evaluation of the C04 line protocol for LARGE cases (tapes of tens of
-  thousands of entries), where the list-based model of EasyMl/Model/Tape.lean — the one the
-  theorems are about — is quadratic (`t ++ [op]`, `List.set`, `getD`).
+  Driver.Fast — the C04 line protocol for LARGE cases (tapes of tens of thousands of entries),
+  answered with the array-backed functions of EasyMl/Model/TapeFast.lean, because the list-based
+  model of EasyMl/Model/Tape.lean is quadratic (`t ++ [op]`, `List.set`, `getD`).
 
-  This is a re-implementation for speed, not a second model: it computes the same functions
-    `Instr.val`, `Instr.tan`, `Instr.dep`   (Spec/Prog.lean)
-    `Instr.exec` on one tape                 (Model/TapeExec.lean, through the two operator shapes
-                                             `Rec.unary` / `Rec.binary` and the `Sum` loop that
-                                             Lemmas/TapeProg.lean proves every operator to have)
-    `reverseSweep`                           (Model/Tape.lean)
-  on `Array`s.  Its agreement with the list-based definitions is **tested, not proved**: on every
-  ordinary (small) case the C04 driver runs both and compares every value, record, appended tape
-  entry count, gradient and derivative vector (`MODEL-SPEC-DISAGREE fast` otherwise, a machinery
-  error).  Cases opened with `@ tape fp big` are answered by this file alone.
+  Those functions are proved to be the list-based ones (`C04.fast_path_agrees`,
+  Lemmas/TapeFast.lean: `fval/ftan/fdep`, `fgrad`, `freverseSweep`, `fexec`); what remains
+  unproved here is the same glue every driver has (name table, state threading, rendering).  In
+  addition the C04 driver runs both evaluations on every ordinary (small) case and compares every
+  answer line and the number of tape entries and records (`MODEL-SPEC-DISAGREE fast=…`).  Cases
+  opened with `@ tape fp big` are answered by this file alone.
 
   Core Lean / Std only.
 -/
 import Driver.Prog
+import EasyMl.Model.TapeFast
 import Std.Data.HashMap
 
 namespace Driver.Fast
-open EasyMl EasyMl.Spec Driver
+open EasyMl EasyMl.Spec EasyMl.Fast Driver
 
 structure FState (R : Type) where
   prog : Array (Instr R) := #[]
@@ -34,147 +31,6 @@ structure FState (R : Type) where
 
 section
 variable {R : Type} [Elem R]
-
-def gv (vs : Array R) (a : Nat) : R := vs.getD a 0
-
-/-- `Instr.val` on arrays -/
-def fval (env : Nat → R) (vs : Array R) : Instr R → R
-  | .const c => c
-  | .var => env vs.size
-  | .arith o a b => o.app (gv vs a) (gv vs b)
-  | .arithNum o a c => o.app (gv vs a) c
-  | .swapped o c a => o.toArith.app c (gv vs a)
-  | .neg a => -(gv vs a)
-  | .sum as => sumList (as.map (gv vs))
-  | .real f a => f.app (gv vs a)
-  | .pow a b => RealFns.pow (gv vs a) (gv vs b)
-  | .powNum a c => RealFns.pow (gv vs a) c
-  | .numPow c a => RealFns.pow c (gv vs a)
-  | .unary f _ a => f (gv vs a)
-  | .binary f _ _ a b => f (gv vs a) (gv vs b)
-
-/-- `Instr.tan` on arrays -/
-def ftan (seed : Nat → R) (vs ts : Array R) : Instr R → R
-  | .const _ => 0
-  | .var => seed vs.size
-  | .arith o a b => o.tan (gv vs a) (gv ts a) (gv vs b) (gv ts b)
-  | .arithNum o a c => o.tan (gv vs a) (gv ts a) c 0
-  | .swapped o c a => o.toArith.tan c 0 (gv vs a) (gv ts a)
-  | .neg a => -(gv ts a)
-  | .sum as => sumList (as.map (gv ts))
-  | .real f a => f.deriv (gv vs a) * gv ts a
-  | .pow a b => powDx (gv vs a) (gv vs b) * gv ts a + powDy (gv vs a) (gv vs b) * gv ts b
-  | .powNum a c => powDx (gv vs a) c * gv ts a
-  | .numPow c a => powDy c (gv vs a) * gv ts a
-  | .unary _ df a => df (gv vs a) * gv ts a
-  | .binary _ dfx dfy a b =>
-    dfx (gv vs a) (gv vs b) * gv ts a + dfy (gv vs a) (gv vs b) * gv ts b
-
-def fdep (ds : Array Bool) (ins : Instr R) : Bool :=
-  ins.isVar || ins.operands.any (ds.getD · false)
-
-def gr (recs : Array (Rec R)) (a : Nat) : Rec R := recs.getD a (Rec.constant 0)
-
-/-- `Rec.unary` on an array tape -/
-def fUnary (tape : Array (Op R)) (a : Rec R) (F D : R → R) : Array (Op R) × Rec R :=
-  match a.history with
-  | none => (tape, Rec.constant (F a.number))
-  | some h => (tape.push ⟨a.index, tape.size, D a.number, 0⟩, ⟨F a.number, some h, tape.size⟩)
-
-/-- `Rec.binary` on an array tape (all records of a C04 case are on the one tape, the
-    `same_list` test is kept) -/
-def fBinary (tape : Array (Op R)) (a b : Rec R) (F DX DY : R → R → R) :
-    Array (Op R) × Outcome (Rec R) :=
-  if !Rec.sameList a b then (tape, .panic .explicit) else
-  let n := F a.number b.number
-  match a.history, b.history with
-  | none, none => (tape, .ok (Rec.constant n))
-  | some h, none =>
-    (tape.push ⟨a.index, tape.size, DX a.number b.number, 0⟩, .ok ⟨n, some h, tape.size⟩)
-  | none, some h =>
-    (tape.push ⟨b.index, tape.size, DY a.number b.number, 0⟩, .ok ⟨n, some h, tape.size⟩)
-  | some h, some _ =>
-    (tape.push ⟨a.index, b.index, DX a.number b.number, DY a.number b.number⟩,
-      .ok ⟨n, some h, tape.size⟩)
-
-/-- the loop of `Sum for Record` on an array tape -/
-def fSum (tape : Array (Op R)) (items : List (Rec R)) : Array (Op R) × Outcome (Rec R) :=
-  let rec go : List (Rec R) → Rec R → Array (Op R) → Array (Op R) × Outcome (Rec R)
-    | [], total, tape => (tape, .ok total)
-    | next :: rest, total, tape =>
-      let n := total.number + next.number
-      match total.history, next.history with
-      | none, none => go rest (Rec.constant n) tape
-      | some h, none => go rest ⟨n, some h, tape.size⟩ (tape.push ⟨total.index, tape.size, 1, 0⟩)
-      | none, some h => go rest ⟨n, some h, tape.size⟩ (tape.push ⟨next.index, tape.size, 1, 0⟩)
-      | some h, some _ =>
-        if !Rec.sameList total next then (tape, .panic .explicit)
-        else go rest ⟨n, some h, tape.size⟩ (tape.push ⟨total.index, next.index, 1, 1⟩)
-  go items (Rec.constant 0) tape
-
-open Fn in
-/-- `Instr.exec 0` on an array tape: every operator through its shape
-    (`Rec.addNum_eq … Rec.pow_eq` of Lemmas/TapeProg.lean) -/
-def fexec (env : Nat → R) (recs : Array (Rec R)) (tape : Array (Op R)) :
-    Instr R → Array (Op R) × Outcome (Rec R)
-  | .const c => (tape, .ok (Rec.constant c))
-  | .var => (tape.push ⟨tape.size, tape.size, 0, 0⟩, .ok ⟨env recs.size, some 0, tape.size⟩)
-  | .arith .add a b => fBinary tape (gr recs a) (gr recs b) Addition.function Addition.dx Addition.dy
-  | .arith .sub a b =>
-    fBinary tape (gr recs a) (gr recs b) Subtraction.function Subtraction.dx Subtraction.dy
-  | .arith .mul a b =>
-    fBinary tape (gr recs a) (gr recs b) Multiplication.function Multiplication.dx Multiplication.dy
-  | .arith .div a b => fBinary tape (gr recs a) (gr recs b) Division.function Division.dx Division.dy
-  | .arithNum .add a c => ok (fUnary tape (gr recs a) (Addition.function · c) (Addition.dx · c))
-  | .arithNum .sub a c => ok (fUnary tape (gr recs a) (Subtraction.function · c) (Subtraction.dx · c))
-  | .arithNum .mul a c =>
-    ok (fUnary tape (gr recs a) (Multiplication.function · c) (Multiplication.dx · c))
-  | .arithNum .div a c => ok (fUnary tape (gr recs a) (Division.function · c) (Division.dx · c))
-  | .swapped .sub c a => ok (fUnary tape (gr recs a) (Subtraction.function c) (Subtraction.dy c))
-  | .swapped .div c a => ok (fUnary tape (gr recs a) (Division.function c) (Division.dy c))
-  | .neg a => ok (fUnary tape (gr recs a) (fun x => -x) (fun _ => -1))
-  | .sum as => fSum tape (as.map (gr recs))
-  | .real .sin a => ok (fUnary tape (gr recs a) Sine.function Sine.dx)
-  | .real .cos a => ok (fUnary tape (gr recs a) Cosine.function Cosine.dx)
-  | .real .exp a => ok (fUnary tape (gr recs a) Exponential.function Exponential.dx)
-  | .real .ln a => ok (fUnary tape (gr recs a) NaturalLogarithm.function NaturalLogarithm.dx)
-  | .real .sqrt a => ok (fUnary tape (gr recs a) SquareRoot.function SquareRoot.dx)
-  | .pow a b => fBinary tape (gr recs a) (gr recs b) Power.function Power.dx Power.dy
-  | .powNum a c => ok (fUnary tape (gr recs a) (Power.function · c) (Power.dx · c))
-  | .numPow c a => ok (fUnary tape (gr recs a) (Power.function c) (Power.dy c))
-  | .unary f df a => ok (fUnary tape (gr recs a) f df)
-  | .binary f dfx dfy a b => fBinary tape (gr recs a) (gr recs b) f dfx dfy
-where
-  ok (x : Array (Op R) × Rec R) : Array (Op R) × Outcome (Rec R) := (x.1, .ok x.2)
-
-/-- `reverseSweep` on arrays: the same loop, the same bounds checks -/
-def fsweep (tape : Array (Op R)) (index : Nat) : Outcome (Array R) := Id.run do
-  let n := tape.size
-  if index ≥ n then return .panic .index
-  let mut d : Array R := (Array.replicate n (0 : R)).set! index 1
-  for k in [0:n] do
-    let i := n - 1 - k
-    let op := tape.getD i ⟨0, 0, 0, 0⟩
-    let derivative := d.getD i 0
-    -- a parent that is the entry itself is skipped (F-19)
-    if op.leftParent ≠ i then
-      if op.leftParent ≥ n then return .panic .index
-      d := d.set! op.leftParent (d.getD op.leftParent 0 + derivative * op.leftDerivative)
-    if op.rightParent ≠ i then
-      if op.rightParent ≥ n then return .panic .index
-      d := d.set! op.rightParent (d.getD op.rightParent 0 + derivative * op.rightDerivative)
-  return .ok d
-
-/-- `Prog.grad env prog i` on arrays: one forward pass -/
-def fgrad (env : Nat → R) (prog : Array (Instr R)) (i : Nat) : Array R := Id.run do
-  let mut vs : Array R := Array.mkEmpty prog.size
-  let mut ts : Array R := Array.mkEmpty prog.size
-  for ins in prog do
-    let v := fval env vs ins
-    let t := ftan (unitSeed i) vs ts ins
-    vs := vs.push v
-    ts := ts.push t
-  return ts
 
 def fvars (prog : Array (Instr R)) : List Nat :=
   (List.range prog.size).filter fun j => (prog.getD j (.const 0)).isVar
@@ -208,7 +64,7 @@ def derivsParts (s : FState R) (k : Nat) : Option (List R × Outcome (Array R)) 
   else
     let env := envOf s.envL
     let g := (fvars s.prog).map fun i => (fgrad env s.prog i).getD k 0
-    some (g, fsweep s.tape (gr s.recs k).index)
+    some (g, freverseSweep s.tape (gr s.recs k).index)
 
 def stepDerivs (s : FState R) (k : Nat) (try_ : Bool) : String :=
   match derivsParts s k with
